@@ -16,16 +16,20 @@ CONSTANTS MaxN,      \* the x axis has 1..MaxN cells (all sizes, all intervals)
           SmallNs,   \* sizes of the y and z axes
           Variant    \* "code" or a wrong variant (negative instance)
 
-VARIABLES dims, sym, obox,        \* inputs, fixed at Init
+\* one axis of a scene: << cells, symmetry kind, object interval >>
+AxisCfgs(Ns) == UNION { { << n, k, iv >> : k \in {-1, 0, 1}, iv \in Intervals(n) } : n \in Ns }
+
+VARIABLES scene,                  \* input, fixed at Init: << x, y, z >> axis configurations
           pc,                     \* "volume" | "object" | "walls" | "done" | "error"
           vol,                    \* reduced volume slices
           clip, unc, dropped,     \* object: clipped slices, unclipped-shifted slices, dropped flag
           walls                   \* set of [axis, slice]
-vars == << dims, sym, obox, pc, vol, clip, unc, dropped, walls >>
+vars == << scene, pc, vol, clip, unc, dropped, walls >>
+dims == [ a \in 1..3 |-> scene[a][1] ]
+sym  == [ a \in 1..3 |-> scene[a][2] ]
+obox == [ a \in 1..3 |-> scene[a][3] ]
 
-Init == /\ dims \in { d \in [1..3 -> 1..MaxN] : d[2] \in SmallNs /\ d[3] \in SmallNs }
-        /\ sym \in [1..3 -> {-1, 0, 1}]
-        /\ obox \in { b \in [1..3 -> (0..MaxN) \X (0..MaxN)] : \A a \in 1..3 : b[a] \in Intervals(dims[a]) }
+Init == /\ scene \in AxisCfgs(1..MaxN) \X AxisCfgs(SmallNs) \X AxisCfgs(SmallNs)
         /\ pc = "volume"
         /\ vol = << >> /\ clip = << >> /\ unc = << >> /\ dropped = FALSE /\ walls = {}
 
@@ -34,7 +38,7 @@ ReduceVolume ==
     /\ IF \E a \in 1..3 : ~AxisOK(dims[a], sym[a])
        THEN pc' = "error" /\ vol' = vol
        ELSE pc' = "object" /\ vol' = [ a \in 1..3 |-> RedVol(dims[a], sym[a]) ]
-    /\ UNCHANGED << dims, sym, obox, clip, unc, dropped, walls >>
+    /\ UNCHANGED << scene, clip, unc, dropped, walls >>
 
 ClipObject ==
     /\ pc = "object"
@@ -42,13 +46,13 @@ ClipObject ==
     /\ clip' = [ a \in 1..3 |-> ClipIv(obox[a], dims[a], sym[a], Variant) ]
     /\ unc'  = [ a \in 1..3 |-> UnclippedIv(obox[a], dims[a], sym[a]) ]
     /\ pc' = "walls"
-    /\ UNCHANGED << dims, sym, obox, vol, walls >>
+    /\ UNCHANGED << scene, vol, walls >>
 
 MakeWalls ==
     /\ pc = "walls"
     /\ walls' = { [ axis |-> a, slice |-> WallSlice(a, [ b \in 1..3 |-> vol[b][2] - vol[b][1] ]) ] : a \in WallAxes(sym, Variant) }
     /\ pc' = "done"
-    /\ UNCHANGED << dims, sym, obox, vol, clip, unc, dropped >>
+    /\ UNCHANGED << scene, vol, clip, unc, dropped >>
 
 Next == ReduceVolume \/ ClipObject \/ MakeWalls
 Spec == Init /\ [][Next]_vars
